@@ -804,6 +804,40 @@ impl<T: Storage> RawNode<T> {
     }
 }
 
+/// Read-only view of `RawNode`'s private bookkeeping for the external verification harness.
+#[cfg(tikv_raft_rs_verif)]
+#[derive(Debug, Clone, PartialEq, Default)]
+pub struct VerifRawNodeView {
+    /// Number of the latest `Ready` handed out.
+    pub max_number: u64,
+    /// Outstanding records: (number, last entry (index, term), snapshot (index, term)).
+    pub records: Vec<(u64, Option<(u64, u64)>, Option<(u64, u64)>)>,
+    /// Index after which the next committed entries are handed out.
+    pub commit_since_index: u64,
+    /// Hard state last handed out.
+    pub prev_hs: HardState,
+    /// Soft state last handed out: (leader id, role).
+    pub prev_ss: (u64, StateRole),
+}
+
+#[cfg(tikv_raft_rs_verif)]
+impl<T: Storage> RawNode<T> {
+    /// Returns a copy of the private bookkeeping; changes nothing.
+    pub fn verif_view(&self) -> VerifRawNodeView {
+        VerifRawNodeView {
+            max_number: self.max_number,
+            records: self
+                .records
+                .iter()
+                .map(|r| (r.number, r.last_entry, r.snapshot))
+                .collect(),
+            commit_since_index: self.commit_since_index,
+            prev_hs: self.prev_hs.clone(),
+            prev_ss: (self.prev_ss.leader_id, self.prev_ss.raft_state),
+        }
+    }
+}
+
 #[cfg(test)]
 mod test {
     use crate::eraftpb::MessageType;
